@@ -42,6 +42,13 @@ Fixpoint monitor (cur : dirst) (steps : list hstep) (i : N) : option N :=
         | None =>
             (* listings never show a user whose name is outside the grammar *)
             match ob with
+            | ORes ROk =>
+                (* an accepted consistency check: some administrator has a name inside the grammar *)
+                match o with
+                | OpCheck => existsb (fun e => has_suffix (str ".admin") (fst e) &&
+                                               schema_name (firstn (length (fst e) - 6) (fst e))) cur
+                | _ => true
+                end
             | OList (Some l) => forallb (fun e => schema_name (fst e)) l
             | OListFull (Some l) => forallb (fun e => Bool.eqb (uf_valid (snd e)) (schema_name (fst e))) l
             | _ => true
